@@ -49,17 +49,18 @@ emit(coroutine.resume(coroutine.create(function() return coroutine.status(co), c
 			w.GoFail(id, fmt.Sprintf("coroutine dying with n=%d values on a registry of %d: rows %q (ok=%v err=%s %s)", n, regsize, rows, out.Ok, out.Err.String(), out.GoFail))
 		}
 	}
-	// 2. the resumer cannot take the yielded values
+	// 2. the resumer cannot take the yielded values: the failure is the resumer's; the coroutine is
+	// suspended in its yield either way and the NEXT resume's arguments are what that yield returns
+	// (lua_resume: the results of the pending yield are the arguments of the resume that continues it)
 	hand := `local big = {}; for i = 1, 900 do big[i] = i end
 local co = coroutine.create(function(a) local x = coroutine.yield(unpack(big, 1, 60)); local y = coroutine.yield("second", x, a); return "done", y end)
 local function crowded(...) local pok, rok, v1 = pcall(coroutine.resume, co, "arg"); return pok, rok, v1 end
 local pok, rok, v1 = crowded(unpack(big, 1, %d))
 emit(pok, type(rok), coroutine.running() == nil, coroutine.status(co))
 emit(coroutine.resume(coroutine.create(function() return coroutine.status(co) end)))
-if pok == false then local r = {coroutine.resume(co)}; emit(r[1], #r, r[2], r[61]) else emit(true, 61, 1, 60) end
-emit(coroutine.resume(co, "X"))
+local r = {coroutine.resume(co, "X")}; emit(r[1], #r, r[2], r[3], r[4])
 emit(coroutine.resume(co, "Y"))
-emit(coroutine.status(co))`
+emit(coroutine.status(co)); emit(coroutine.resume(co))`
 	for m := regsize - 160; m <= regsize-20; m += step {
 		src := fmt.Sprintf(hand, m)
 		o := opt
@@ -71,13 +72,42 @@ emit(coroutine.status(co))`
 			ok = strings.Contains(out.Err.String(), "overflow") && len(rows) == 0
 		} else if ok {
 			ok = len(rows) == 6 && (strings.HasPrefix(rows[0], `true "boolean" true "suspended"`) || strings.HasPrefix(rows[0], `false "string" true "suspended"`)) &&
-				rows[1] == `true "suspended"` && rows[2] == "true 61 1 60" && rows[3] == `true "second" "X" "arg"` && rows[4] == `true "done" "Y"` && rows[5] == `"dead"`
+				rows[1] == `true "suspended"` && rows[2] == `true 4 "second" "X" "arg"` && rows[3] == `true "done" "Y"` && rows[4] == `"dead"` && strings.HasPrefix(rows[5], "false")
 		}
 		id := w.Add(lib.Case{Input: map[string]any{"limit": "hand-over", "m": m, "src": src, "registry": regsize}, Observed: out.Summary(), Class: "limit-hand-over",
 			Nontrivial: true, Coq: "CProg [] (Outcome [] (OOk []))"})
 		w.Meta.GoOnlyChecked++
 		if !ok {
 			w.GoFail(id, fmt.Sprintf("yield of 60 values to a resumer holding m=%d arguments on a registry of %d: rows %q (ok=%v err=%s %s)", m, regsize, rows, out.Ok, out.Err.String(), out.GoFail))
+		}
+	}
+	// 3. the coroutine fails with a runtime error (or returns) while its resumer has hardly any room left for (false, message): whatever the
+	// resumer gets, the coroutine is dead and can never run again
+	crowdedDie := `local big = {}; for i = 1, 900 do big[i] = i end
+local log = {}
+local co = coroutine.create(function() log[#log + 1] = "before"; %s; log[#log + 1] = "AFTER"; return "finished" end)
+local function resumer(...) return coroutine.resume(co) end
+local ok, a = pcall(resumer, unpack(big, 1, %d))
+emit(ok, a == true, coroutine.status(co), coroutine.running() == nil, #log)
+emit(coroutine.resume(co)); emit(#log, coroutine.status(co))`
+	for _, body := range []string{`local t = nil; local x = t.field`, `error({})`, `do return 1, 2, 3 end`} {
+		for n := regsize - 40; n <= regsize-2; n += 1 + step/4 {
+			src := fmt.Sprintf(crowdedDie, body, n)
+			o := opt
+			out := luagen.Run(src, &luagen.RunOptions{Options: &o, Timeout: 20e9})
+			rows := traceRows(out)
+			ok := out.GoFail == ""
+			if ok && !out.Ok {
+				ok = strings.Contains(out.Err.String(), "overflow") && len(rows) == 0
+			} else if ok {
+				ok = len(rows) == 3 && strings.Contains(rows[0], `"dead" true 1`) && strings.HasPrefix(rows[1], "false") && rows[2] == `1 "dead"`
+			}
+			id := w.Add(lib.Case{Input: map[string]any{"limit": "die-crowded", "n": n, "body": body, "src": src, "registry": regsize}, Observed: out.Summary(), Class: "limit-die-crowded",
+				Nontrivial: true, Coq: "CProg [] (Outcome [] (OOk []))"})
+			w.Meta.GoOnlyChecked++
+			if !ok {
+				w.GoFail(id, fmt.Sprintf("coroutine ending (%s) under a resumer holding n=%d arguments on a registry of %d: rows %q (ok=%v err=%s %s)", body, n, regsize, rows, out.Ok, out.Err.String(), out.GoFail))
+			}
 		}
 	}
 }
